@@ -149,7 +149,9 @@ class CSSCharsetRule(cssrule.CSSRule):
                             '%r.' % encoding)
         else:
             try:
-                codecs.lookup(encoding)
+                if 'css' == codecs.lookup(encoding).name:
+                    # the css codec itself is no encoding of a sheet
+                    raise LookupError(encoding)
                 # the sheet is written with it: must be a text encoding
                 # which takes an error handler (not rot13, idna, undefined)
                 'a'.encode(encoding, 'replace')
